@@ -7,3 +7,12 @@ import MJ.Props.C17
 #print axioms MJ.C17.normalize_stays_below
 #print axioms MJ.C17.walk_stays_below
 #print axioms MJ.C17.get_template_passes_name
+#print axioms MJ.C17.loader_base_is_configured
+#print axioms MJ.C17.loader_reads_confined
+#print axioms MJ.C17.loader_found_confined
+#print axioms MJ.C17.loader_absent_base_missing
+#print axioms MJ.C17.loader_history_confined
+#print axioms MJ.C17.loader_model_matches_source
+#print axioms MJ.C17.safe_join_rules_from_source
+#print axioms MJ.C17.entry_sites_covered
+#print axioms MJ.C17.loader_history_confined_after_clear
